@@ -8,6 +8,12 @@ Correspondence (model = lean/IrVerif/Model/Layout.lean through the `layout.*` dr
      the state of every initializer that serialization sees (same object / in-memory copy /
      new ExternalTensor with location, offset, length), the bytes of every data file, and the
      value -> tensor map after the call (also when the save raises), against the model.
+  C. (deepening rounds) whole safetensors file images and saves on initializer positions (`layout.st_file`,
+     `layout.st_save`, `layout.st_unload`), the restore loop through the setter in DEBUG mode and under an
+     asynchronous exception (`layout.save_run_checked`, `layout.save_run_async`), generated call sequences
+     mixing both backends (`layout.seq`), COMPLEX128 on the safetensors backend (KeyError, nothing changes).
+Every call of real code runs under a CPU/wall guard (`alarm_guard`): a timeout is the failure
+`nontermination:*`, an exception of real code called on stubs a disagreement, never a hung or crashed check.
 Oracle (independent of the model, on the real objects and files): ranges follow declaration order,
 are disjoint, inside the file and aligned; threshold respected; shard limit; shard file names
 distinct; reload with `ir.load` gives name/dtype/shape/bytes of the originals; the model object
@@ -139,7 +145,7 @@ class _Timeout(BaseException):
 
 
 _GUARD = {"fired": None}
-_CASE_CPU_S, _CASE_WALL_S = 30, 240   # one whole save / sequence case (normally a few milliseconds)
+_CASE_CPU_S, _CASE_WALL_S = 15, 240   # one whole save / sequence case (normally a few milliseconds)
 _PART_A_CPU_S, _PART_A_WALL_S = 120, 600  # one stream of part A (pure functions, thousands of calls)
 
 
@@ -1339,12 +1345,19 @@ def run_async_case(case: dict) -> dict:
                                  "what": f"asynchronous exception fired={state['fired']} raised={type(raised).__name__ if raised else None}, "
                                          f"expected interruption={want_raise} (snapshot of {len(snapshot)}, cut {cut})", "case": case})
         if mid is not None:
-            for j, k in enumerate(snapshot):
-                want = tensors[k] if j < n_eff else mid[k]
-                if after[k] is not want:
-                    res["fails"].append({"signature": f"restore-async:{backend}:{'prefix-not-restored' if j < n_eff else 'suffix-touched'}",
-                                         "what": f"after an asynchronous exception following {n_eff} restores value {k} "
-                                                 f"(snapshot position {j}) holds an unexpected object", "case": case})
+            # whatever the order of the loop: a value holds its original object or the object serialization saw, and
+            # a value outside the remembered ones was never touched by the finally block (WHICH remembered values
+            # are restored after n assignments is the model's statement: compared through saveRunAsync above)
+            for k in range(len(vs)):
+                if after[k] is not tensors[k] and after[k] is not mid[k]:
+                    res["fails"].append({"signature": f"restore-async:{backend}:third-object",
+                                         "what": f"after an asynchronous exception following {n_eff} restores value {k} holds "
+                                                 "neither its original tensor nor the one the save put there", "case": case})
+                    break
+                if k not in snapshot and after[k] is not mid[k]:
+                    res["fails"].append({"signature": f"restore-async:{backend}:unremembered-touched",
+                                         "what": f"value {k} is not among the remembered values but was changed by the finally block",
+                                         "case": case})
                     break
         if not want_raise and any(a is not b for a, b in zip(after, tensors)):
             res["fails"].append({"signature": f"restore:{backend}:async-family-no-interruption",
